@@ -1,0 +1,130 @@
+//go:build verif
+
+// Verification hook (build tag "verif", add-only): drives the link
+// destination replacer and the Markdown URL escaping of package main for the
+// /verif harness. It reads a JSON array of cases from the file named by
+// VERIF_LINKDEST_IN and writes the JSON array of results to the file named by
+// VERIF_LINKDEST_OUT. Nothing here is compiled without the tag.
+
+package main
+
+import (
+	"bytes"
+	"encoding/hex"
+	"encoding/json"
+	"fmt"
+	"net/url"
+	"os"
+	"testing"
+)
+
+type verifLinkCase struct {
+	Op   string     `json:"op"` // replace | apply | escape | unescape | dest
+	Base string     `json:"base,omitempty"`
+	Dir  string     `json:"dir,omitempty"`
+	Src  string     `json:"src,omitempty"` // hex
+	List [][]string `json:"list,omitempty"` // [start, stop, repl(hex)] as strings
+}
+
+type verifLinkResult struct {
+	Out   string     `json:"out,omitempty"` // hex
+	List  [][]string `json:"list,omitempty"`
+	Err   string     `json:"err,omitempty"`
+	Panic string     `json:"panic,omitempty"`
+}
+
+func verifList(rs []replacement) [][]string {
+	out := make([][]string, 0, len(rs))
+	for _, r := range rs {
+		out = append(out, []string{fmt.Sprint(r.start), fmt.Sprint(r.stop), hex.EncodeToString([]byte(r.repl))})
+	}
+	return out
+}
+
+func verifRunLinkCase(c verifLinkCase) (res verifLinkResult) {
+	defer func() {
+		if r := recover(); r != nil {
+			res = verifLinkResult{Panic: fmt.Sprint(r)}
+		}
+	}()
+	src, err := hex.DecodeString(c.Src)
+	if err != nil {
+		return verifLinkResult{Err: "bad hex"}
+	}
+	if src == nil {
+		src = []byte{}
+	}
+	var r linkDestinationReplacer
+	if c.Op == "replace" || c.Op == "dest" {
+		base, err := url.Parse(c.Base)
+		if err != nil {
+			return verifLinkResult{Err: "bad base"}
+		}
+		r = linkDestinationReplacer{base: base, dir: c.Dir}
+	}
+	switch c.Op {
+	case "replace":
+		res.List = verifList(r.collectReplacements(src))
+		var dst bytes.Buffer
+		if err := r.replace(&dst, src); err != nil {
+			res.Err = err.Error()
+		}
+		res.Out = hex.EncodeToString(dst.Bytes())
+	case "apply":
+		var rs []replacement
+		for _, e := range c.List {
+			var x replacement
+			fmt.Sscan(e[0], &x.start)
+			fmt.Sscan(e[1], &x.stop)
+			b, _ := hex.DecodeString(e[2])
+			x.repl = string(b)
+			rs = append(rs, x)
+		}
+		var dst bytes.Buffer
+		dst.WriteString("stale")
+		r.applyReplacements(&dst, src, rs)
+		res.Out = hex.EncodeToString(dst.Bytes())
+	case "escape":
+		res.Out = hex.EncodeToString([]byte(markdownURLEscape(string(src))))
+	case "unescape":
+		s, err := markdownUnescape(src)
+		if err != nil {
+			res.Err = err.Error()
+		}
+		res.Out = hex.EncodeToString([]byte(s))
+	case "dest":
+		// the decision and the rewriting of one destination: src[0:len(src)]
+		rs := make([]replacement, 0)
+		r.appendReplacement(&rs, src, 0, len(src))
+		res.List = verifList(rs)
+	default:
+		res.Err = "unknown op"
+	}
+	return res
+}
+
+func TestVerifLinkDest(t *testing.T) {
+	in, out := os.Getenv("VERIF_LINKDEST_IN"), os.Getenv("VERIF_LINKDEST_OUT")
+	if in == "" || out == "" {
+		t.Skip("VERIF_LINKDEST_IN / VERIF_LINKDEST_OUT not set")
+	}
+	data, err := os.ReadFile(in)
+	if err != nil {
+		t.Fatal(err)
+	}
+	var cases []verifLinkCase
+	if err := json.Unmarshal(data, &cases); err != nil {
+		t.Fatal(err)
+	}
+	results := make([]verifLinkResult, len(cases))
+	for i, c := range cases {
+		results[i] = verifRunLinkCase(c)
+	}
+	b, err := json.Marshal(results)
+	if err != nil {
+		t.Fatal(err)
+	}
+	if err := os.WriteFile(out, b, 0o644); err != nil {
+		t.Fatal(err)
+	}
+}
